@@ -152,6 +152,17 @@ def main():
     m = need(http, r"quantity:\s*req\.quantity\.unwrap_or\((\d+)\)", "HTTP default quantity")
     add("HTTP_DEFAULT_QUANTITY", int(m.group(1)), "http.rs quantity.unwrap_or")
 
+    # ---- main.rs wiring (C09): one limiter, one handle cloned to every transport ----------------
+    mainrs = strip_comments(src("throttlecrab-server/src/main.rs"))
+    add("MAIN_CREATE_LIMITER_CALLS", len(re.findall(r"create_rate_limiter\s*\(", mainrs)), "main.rs: number of calls of store::create_rate_limiter")
+    starts = re.findall(r"transport\.start\(\s*(\w+)\s*\)", mainrs)
+    add("MAIN_TRANSPORT_STARTS", len(starts), "main.rs: number of transport.start(..) calls")
+    handles = re.findall(r"let\s+limiter_handle\s*=\s*([^;]+);", mainrs)
+    add("MAIN_HANDLES_CLONED_FROM_LIMITER", sum(1 for h in handles if h.strip() == "limiter.clone()"), "main.rs: transport handles that are `limiter.clone()`")
+    add("MAIN_METRICS_BUILDS", len(re.findall(r"Metrics::builder\(\)", mainrs)), "main.rs: number of Metrics instances built")
+    storers = strip_comments(src("throttlecrab-server/src/store.rs"))
+    add("STORE_SPAWN_CALLS", len(re.findall(r"RateLimiterActor::spawn_\w+\(", storers)), "store.rs: actor spawns (one per store kind branch)")
+
     def pairs(name, doc, xs):
         return [f"/-- {doc} -/", f"def {name} : List (String × String) := [" + ", ".join(f'("{a}", "{b}")' for a, b in xs) + "]"]
 
